@@ -286,7 +286,9 @@ Inductive sop : Type :=
 | OUnWatch (w a : nat)
 | OStop (a : nat)            (* Shutdown, PoisonPill *)
 | ORestart (a : nat)         (* Restart of a running top-level actor without children *)
-| OSpawnChild (p c : nat).
+| OSpawnChild (p c : nat)
+| OSuspend (a : nat)         (* pid.suspend: the actor stays registered but IsRunning() is false *)
+| OReinstate (a : nat).
 
 Definition guardian : nat := 0.
 Definition deathwatch : nat := 1.
@@ -298,6 +300,8 @@ Definition apply_sop (s : sys) (o : sop) : sys :=
   | OStop a => stop_seq 8 deathwatch s a
   | ORestart a => restart_seq 8 deathwatch s guardian a
   | OSpawnChild p c => if is_running s p then spawn_seq deathwatch s p c else s
+  | OSuspend a => step s (LSetRunning a false)
+  | OReinstate a => step s (LSetRunning a true)
   end.
 
 Definition world0 (n : nat) : sys :=
